@@ -356,8 +356,22 @@ func c14Oracle(r *vmc.Result, m *c14Mesh, hist []string, expected []string) {
 		a.routeMgr.CleanupStaleForwardRoutes(m.ttl)
 		a.routeMgr.CleanupStaleAgentRoutes(m.ttl)
 		after := m.originRoutes(x)
-		// why: under which sequence numbers had x been handed replays of the origin's routes
+		// why: if x was sent the announcement, whatever made x ignore it was sent to x (a replay
+		// stamped higher: older-sequence rejection; or stamped the same: x's seen cache). If x was
+		// never sent it, a relay upstream swallowed it: look for the colliding pair anywhere.
+		gotIt := false
+		for _, y := range sent[len(m.gens)-1] {
+			if y == x {
+				gotIt = true
+			}
+		}
 		why := c14Why(m.replaySeqs(x), last.Lo, last.Seq)
+		if !gotIt {
+			why = "announcement-not-delivered-to-it"
+			if c14Why(m.replaySeqs(-1), last.Lo, last.Seq) == "replay-used-same-sequence" {
+				why = "replay-used-same-sequence"
+			}
+		}
 		var staleMax uint64
 		for _, b := range before {
 			if b.Age > m.ttl && b.Seq > staleMax {
@@ -463,7 +477,7 @@ func TestVerif_C14(t *testing.T) {
 			c14Scenario{N: 4, Edges: [][2]int{{0, 1}, {2, 3}}, LateEdges: [][2]int{{1, 2}}, Origin: 0, Budget: []int{2, 2, 0, 0}, Pre: pre(4, 1, o0+1)},
 			c14Scenario{N: 4, Edges: [][2]int{{0, 1}, {2, 3}}, LateEdges: [][2]int{{1, 2}}, Origin: 0, Budget: []int{3, 0, 0, 0}, Pre: pre(4, 1, o0+2)},
 			c14Scenario{N: 3, Edges: [][2]int{{0, 1}, {0, 2}}, LateEdges: [][2]int{{1, 2}}, Origin: 0, Budget: []int{2, 1, 0}, Pre: pre(3, 1, o0+1)},
-			c14Scenario{N: 4, Edges: [][2]int{{0, 1}, {1, 2}}, LateEdges: [][2]int{{2, 3}, {1, 3}}, Origin: 0, Budget: []int{2, 0, 1, 0}, Pre: pre(4, 2, o0+1)},
+			c14Scenario{N: 4, Edges: [][2]int{{0, 1}, {1, 2}}, LateEdges: [][2]int{{2, 3}, {1, 3}}, Origin: 0, Budget: []int{1, 0, 0, 0}, Pre: pre(4, 2, o0+1)},
 			c14Scenario{N: 3, Edges: [][2]int{{0, 1}, {1, 2}, {0, 2}}, Origin: 0, Budget: []int{3, 1, 1}, Pre: pre(3, 1, o0+1)},
 		)
 	}
